@@ -36,7 +36,8 @@ fn family(prop: &str) -> Option<&'static Family> {
     match prop {
         "C02" => Some(&simcore::combined::FAMILY_C02),
         "C01" | "C03" | "C04" => Some(&simcore::props::FAMILY),
-        "C05" | "C07" | "C10" | "C11" => Some(&simcore::vmprops::FAMILY),
+        "C07" => Some(&simcore::combined::FAMILY_C07),
+        "C05" | "C10" | "C11" => Some(&simcore::vmprops::FAMILY),
         "C20" => Some(&locksim::c20::FAMILY),
         "C06" => Some(&simcore::c06::FAMILY),
         _ => None,
